@@ -314,7 +314,7 @@ func onxOperations(c *Ctx) (generic, network map[string]bool, ok bool) {
 			return nil
 		}
 		m := map[string]bool{}
-		for _, sw := range stringSwitches(p, fd.Body) {
+		for _, sw := range stringSwitchesDeep(p, fd, 2) {
 			for _, cs := range sw.Cases {
 				m[cs] = true
 			}
@@ -332,7 +332,7 @@ func driverTypeCases(c *Ctx) map[string]bool {
 		return nil
 	}
 	m := map[string]bool{}
-	for _, sw := range stringSwitches(p, fd.Body) {
+	for _, sw := range stringSwitchesDeep(p, fd, 2) {
 		if f := selField(p, sw.Tag); f != nil && f.Name() == "DriverType" {
 			for _, cs := range sw.Cases {
 				m[cs] = true
@@ -365,7 +365,7 @@ func platformOptionTable(c *Ctx) map[string]string {
 		return nil
 	}
 	out := map[string]string{}
-	for _, sw := range stringSwitches(p, fd.Body) {
+	for _, sw := range stringSwitchesDeep(p, fd, 2) {
 		if f := selField(p, sw.Tag); f == nil || f.Name() != "Option" {
 			continue
 		}
